@@ -104,7 +104,7 @@ func guarded(f func()) (panicked any, hung bool) {
 	select {
 	case p := <-done:
 		return p, false
-	case <-time.After(20 * time.Second):
+	case <-time.After(10 * time.Second):
 		return nil, true
 	}
 }
